@@ -194,6 +194,10 @@ def check(P: Project, R: Report) -> None:
                     if okey in ANY_RECEIVERS:
                         key = okey
             seen_any.add(key)
+            if key not in ANY_RECEIVERS and mod.startswith("chuk_mcp.transports.") and not logged:
+                # the carriers move JSON-RPC envelopes and nothing else (what they take off the outgoing stream, what they
+                # parse from the wire); a helper of a carrier that serialises "the message" serialises an envelope
+                key = ("chuk_mcp.transports.http.transport", "_send_message_internal")
             why_ = ANY_RECEIVERS.get(key) or ("its result is only formatted into a log record; not wire data" if logged else None)
             R.ob("R1", f"{mod}:{fn}: Any-typed receiver is a known, justified site", why_ is not None, where,
                  why_ or "a model_dump on an untyped receiver that is not in the justified table: its class may carry aliases", sample=f"R1 {mod}:{fn} receiver Any — {(why_ or 'UNJUSTIFIED')[:80]}")
@@ -326,7 +330,11 @@ def check(P: Project, R: Report) -> None:
             def _asks(e) -> bool:
                 """the expression can only hold when one of the caller's options was given"""
                 if isinstance(e, ast.Name):
+                    if e.id in la.defs and isinstance(la.defs[e.id][1], ast.AST) and not isinstance(la.defs[e.id][1], ast.stmt):
+                        return _asks(la.defs[e.id][1])  # a flag computed first (`skipped = exclude_none and v is None or …`)
                     return e.id in opts
+                if isinstance(e, ast.UnaryOp) and isinstance(e.op, ast.Not) and isinstance(e.operand, ast.UnaryOp) and isinstance(e.operand.op, ast.Not):
+                    return _asks(e.operand.operand)
                 if isinstance(e, ast.BoolOp):
                     return (any if isinstance(e.op, ast.And) else all)(_asks(v) for v in e.values)
                 if isinstance(e, ast.Call) and call_name(e) in ("bool", "len") and len(e.args) == 1:
